@@ -12,7 +12,8 @@ HI_SCALE = Fraction(2 ** 20)
 RULE = ('polynomials of degree 0..7 built from chosen dyadic roots (simple, at 0, at either bracket end, double, none) '
         'or random coefficients, as SimplePolynomial (coefficient vector) and IntermediatePolynomial (Terms built directly), '
         'power-of-two rescalings; brackets ordered / reversed / degenerate; init inside, outside, at an end, equal to the first '
-        'midpoint (incl. the second midpoint 0 pattern); tolerances 1e-1..1e-12; caps {0,1,5,60,100,1200,3000}; both modes; '
+        'midpoint (incl. the second midpoint 0 pattern) and within the tolerance of it without being equal (init_near_mid, tight '
+        'tolerances 1e-6..1e-10, cap >= 1200, the converse must hold); tolerances 1e-1..1e-12; caps {0,1,5,60,100,1200,3000}; both modes; '
         'a malformed stream (NaN/inf bounds and tolerances, negative tolerance, two-variable and unbound-variable '
         'IntermediatePolynomials). distinct = distinct case line; non-trivial = the loop was entered (init accepted) on a '
         'non-constant target')
@@ -760,3 +761,81 @@ def gen(rng, tier):
             ts = [(float(rng.randint(1, 5)), [(X, float(rng.randint(1, 3)))]), (2.0, [])]
             poly = enc_ipoly(ts, rng.choice([['y'], [], ['xx']]))
             yield Case(mk_line(poly, lo, init, hi, tol, cap, mode), 'malformed-unbound/i', None)
+
+    # init_near_mid: the first-iteration guard.  init lies within the tolerance of the first midpoint without being
+    # equal to it (or is its float neighbour), so the relative change measured at iteration 0 is tiny but non-zero; it
+    # must not stop the search before the bracket has been halved.  Tight tolerances far below the F-C06-LOOSE-TOL
+    # threshold, cap >= 1200, sign change, moderate scale: the converse clause of the oracle demands Ok.
+    n_near = 40 if tier == 'quick' else 800
+    made = 0
+    guard = 0
+    while made < n_near and guard < 100 * n_near:
+        guard += 1
+        deg = rng.randint(1, 3)
+        roots = sorted(set(q4(rng, 12) for _ in range(deg)))
+        r = rng.choice(roots)
+        left = max([x for x in roots if x < r], default=r - 4)
+        right = min([x for x in roots if x > r], default=r + 4)
+        lo = r - (r - left) * Fraction(rng.randint(1, 7), 8)
+        hi = r + (right - r) * Fraction(rng.randint(1, 7), 8)
+        p = from_roots(roots, Fraction(rng.choice([1, -1, 2])))
+        mode = rng.choice([0, 0, 1])
+        if mode == 1:
+            p = [Fraction(rng.randint(-3, 3))] + [840 * c / (k + 1) for k, c in enumerate(p)]
+            p = [c / 840 for c in p] if all(representable(c / 840) for c in p) else p
+        coefs = [fl(c) for c in p]
+        lo, hi = fl(lo), fl(hi)
+        mid = (lo + hi) / 2
+        tol = 10.0 ** (-rng.randint(6, 10))
+        kind = rng.choice(['rel', 'rel', 'next'])
+        if kind == 'rel':
+            init = mid * (1 + rng.choice([-1, 1]) * 10.0 ** rng.uniform(-15, -7))
+        else:
+            init = math.nextafter(mid, rng.choice([-math.inf, math.inf]))
+        if mid == 0 or init == mid or not (lo <= init <= hi) or not (abs(abs(mid - init) / mid * 100) < tol):
+            continue
+        cap = rng.choice([1200, 3000])
+        ptype = rng.choice(['s', 's', 'i'])
+        c = emit(coefs, lo, init, hi, tol, cap, mode, 'init_near_mid', ptype)
+        d = parse(c)
+        g = target_of(d)
+        t0 = slope_tolerance(g, d) if isinstance(g, list) else None
+        if not isinstance(g, list) or peval(g, Fraction(mid)) == 0 or not converse_applies(g, d):
+            continue
+        if t0 is None or Fraction(tol) * 100 > t0:
+            continue
+        made += 1
+        yield c
+
+
+# ---- extraction cross-check: the same cases evaluated inside Coq by vm_compute
+from tools import xenc
+COQ_IMPORTS = 'Base.XEnc Model.Poly Model.Solvers'
+XCHECK_N = 200
+
+
+def coq_term(case):
+    # crc thinning below XCHECK_N so that every eligible case is taken, whatever its position in the stream
+    if not xenc.keep(case, 1 if case.cls.startswith('fixed') else 12):
+        return None
+    t = xenc.Toks(case.line)
+    if t.word() != 'bis':
+        return None
+    ty = t.word()
+    if ty == 's':
+        f, p = 's_bisection', xenc.cq_spoly_rec(t)
+    elif ty == 'i':
+        f, p = 'i_bisection', xenc.cq_ipoly_rec(t)
+    else:
+        return None
+    lo, init, hi, tol = [xenc.coq_float(t.fl()) + '%float' for _ in range(4)]
+    cap = t.int()
+    mode = t.int() == 1
+    if not 0 <= cap <= 5000:
+        return None
+    return ('%s (@%s float FNum %s {| b_lower := %s; b_init := %s; b_upper := %s |} %s %d%%nat %s)'
+            % (xenc.CQ_ENC_SOLVER, f, p, lo, init, hi, tol, cap, xenc.cq_bool(mode)))
+
+
+def encode_result(case, model_line):
+    return xenc.enc_solver_line(model_line)
